@@ -38,7 +38,72 @@ func c01Check(m *MClaims) (msg string, skipped bool) {
 	if err2 := c.Validate(); (err2 == nil) != (err == nil) {
 		return "second Validate() gives a different verdict", false
 	}
+	if d := c01ExportedValidators(m); d != "" {
+		return d + "  [" + m.ClassVector() + "]", false
+	}
 	return "", false
+}
+
+// c01ExportedValidators: the per-claim rules are also exported as stand-alone
+// validators (claims_common.go); applied to the values the model holds they
+// give the verdict of the model's rule for that claim.
+func c01ExportedValidators(m *MClaims) string {
+	type vc struct {
+		name string
+		got  error
+		want bool
+	}
+	var vs []vc
+	if m.ImplID != nil {
+		vs = append(vs, vc{"ValidateImplID", psatoken.ValidateImplID(*m.ImplID), len(*m.ImplID) == 32})
+	}
+	if m.InstID != nil {
+		vs = append(vs, vc{"ValidateInstID", psatoken.ValidateInstID(*m.InstID), instIDOK(*m.InstID)})
+	}
+	if m.VSI != nil {
+		vs = append(vs, vc{"ValidateVSI", psatoken.ValidateVSI(*m.VSI), *m.VSI != ""})
+	}
+	if m.Lifecycle != nil {
+		vs = append(vs, vc{"ValidateSecurityLifeCycle", psatoken.ValidateSecurityLifeCycle(*m.Lifecycle), lifecycleState(*m.Lifecycle) >= 0})
+	}
+	if m.Nonces != nil {
+		for _, n := range *m.Nonces {
+			if n != nil {
+				vs = append(vs, vc{"ValidateNonce", psatoken.ValidateNonce(n), isHashLen(len(n))}, vc{"ValidatePSAHashType", psatoken.ValidatePSAHashType(n), isHashLen(len(n))})
+			}
+		}
+	}
+	if !m.CompsNil {
+		list, allOK, hasNil := []psatoken.ISwComponent{}, true, false
+		for _, mc := range m.Comps {
+			if mc == nil || mc.NilEntry {
+				hasNil = true
+				break
+			}
+			list = append(list, libComp(mc))
+			if compClass(mc) != EOK {
+				allOK = false
+			}
+		}
+		if !hasNil {
+			vs = append(vs, vc{"ValidateSwComponents", psatoken.ValidateSwComponents(list), len(list) > 0 && allOK})
+			for i, mc := range m.Comps {
+				vs = append(vs, vc{fmt.Sprintf("ValidateSwComponent(#%d)", i), psatoken.ValidateSwComponent(libComp(mc)), compClass(mc) == EOK})
+				if mc.Value != nil {
+					vs = append(vs, vc{"ValidatePSAHashType(measurement value)", psatoken.ValidatePSAHashType(*mc.Value), isHashLen(len(*mc.Value))})
+				}
+			}
+		}
+	}
+	for _, v := range vs {
+		if (v.got == nil) != v.want {
+			return fmt.Sprintf("exported validator %s = %v on the value the claims-set holds; the rule says valid=%v", v.name, v.got, v.want)
+		}
+		if v.got != nil && classify(v.got) != ESyntax && classify(v.got) != EMissMand {
+			return fmt.Sprintf("exported validator %s: error %q is neither wrong-syntax nor missing-mandatory", v.name, v.got)
+		}
+	}
+	return ""
 }
 
 var c01Kind = registerKind("c01", func(m MClaims) string {
